@@ -83,7 +83,7 @@ def rand_reaction(r, labels, max_order=4, allow_empty=True):
 def rand_network(r, opts=None):
     """opts: nspecies (lo,hi), nreactions (lo,hi), max_order, nenv (lo,hi), h (natural length, m),
     rate_scale, no_explosive (bool), diffusing (probability a species diffuses)"""
-    o = dict(nspecies=(1, 4), nreactions=(0, 3), max_order=4, nenv=(1, 3), h=None, no_explosive=True,
+    o = dict(nspecies=(1, 4), nreactions=(0, 3), max_order=4, nenv=(1, 3), h=None, no_explosive=True, no_growth=True,
              p_diff=0.8, counts=(0, 200), rate=(0.05, 5.0), chstt=0.25)
     o.update(opts or {})
     h = o["h"] if o["h"] else 10 ** r.uniform(-7, -4.5)
@@ -119,6 +119,13 @@ def rand_network(r, opts=None):
             if n >= 2 and m > n:
                 kf = 0.0
             if m >= 2 and n > m:
+                kr = 0.0
+        if o["no_growth"]:
+            # no net molecule production by a direction of order >= 1 (exponential growth): over the long runs some
+            # checks make, counts would reach the regime where tau-leap is undefined (propensity*dt >= 2^63, see C10)
+            if n >= 1 and m > n:
+                kf = 0.0
+            if m >= 1 and n > m:
                 kr = 0.0
         reactions.append({"sub": sub, "prod": prod, "kf": kf, "kr": kr,
                           "label": ("r%d" % j) if r.random() < 0.5 else None})
